@@ -43,13 +43,25 @@ fn feed(layer: &mut Layer, frame: &[u8]) -> Seen {
     let mut phys = PhysLayer::Verif(io);
     let mut payload = FramePayload::new();
     let r = block_on_ready(layer.read(&mut phys, DecodeLevel::nothing(), &mut payload));
-    let delivered = r.ok().map(|info| (info.frame_type, info.source.raw_value(), info.broadcast.is_some()));
+    let delivered = r.ok().map(|info| {
+        (
+            info.frame_type,
+            info.source.raw_value(),
+            info.broadcast.is_some(),
+        )
+    });
     let writes = peer.drain();
     let reply = writes.first().and_then(|w| match rl::try_frame(w) {
-        rl::TryFrame::Ok(f, n) if n == w.len() && f.payload.is_empty() => Some((f.ctrl, f.dst, f.src)),
+        rl::TryFrame::Ok(f, n) if n == w.len() && f.payload.is_empty() => {
+            Some((f.ctrl, f.dst, f.src))
+        }
         _ => Some((0xFF, 0, 0)),
     });
-    Seen { delivered, reply, extra_writes: writes.len().saturating_sub(1) }
+    Seen {
+        delivered,
+        reply,
+        extra_writes: writes.len().saturating_sub(1),
+    }
 }
 
 /// the statement, transcribed. None = not asserted.
@@ -60,7 +72,11 @@ struct Expect {
 }
 
 fn expect(master_role: bool, self_en: bool, sec: &mut Sec, ctrl: u8, dst: u16, src: u16) -> Expect {
-    let nothing = Expect { addressed: false, deliver: Some(false), reply: Some(None) };
+    let nothing = Expect {
+        addressed: false,
+        deliver: Some(false),
+        reply: Some(None),
+    };
     let from_master = ctrl & 0x80 != 0;
     if from_master == master_role {
         return nothing; // same station type
@@ -93,34 +109,65 @@ fn expect(master_role: bool, self_en: bool, sec: &mut Sec, ctrl: u8, dst: u16, s
     };
     // addressed to us by the opposite station type from a proper source
     if !prm {
-        return Expect { addressed: true, deliver: None, reply: None };
+        return Expect {
+            addressed: true,
+            deliver: None,
+            reply: None,
+        };
     }
     match (function, fcv) {
-        (4, false) => Expect { addressed: true, deliver: Some(true), reply: Some(None) },
+        (4, false) => Expect {
+            addressed: true,
+            deliver: Some(true),
+            reply: Some(None),
+        },
         (0, false) => {
             *sec = Sec::Reset(true);
-            Expect { addressed: true, deliver: Some(false), reply: Some(Some(0x00)) }
+            Expect {
+                addressed: true,
+                deliver: Some(false),
+                reply: Some(Some(0x00)),
+            }
         }
         (3, true) => match *sec {
-            Sec::NotReset => Expect { addressed: true, deliver: Some(false), reply: if broadcast { Some(None) } else { None } },
+            Sec::NotReset => Expect {
+                addressed: true,
+                deliver: Some(false),
+                reply: if broadcast { Some(None) } else { None },
+            },
             Sec::Reset(exp) => {
                 let deliver = fcb == exp;
                 if deliver {
                     *sec = Sec::Reset(!exp);
                 }
-                Expect { addressed: true, deliver: Some(deliver), reply: Some(if broadcast { None } else { Some(0x00) }) }
+                Expect {
+                    addressed: true,
+                    deliver: Some(deliver),
+                    reply: Some(if broadcast { None } else { Some(0x00) }),
+                }
             }
         },
-        (9, false) => Expect { addressed: true, deliver: None, reply: Some(Some(0x0B)) },
+        (9, false) => Expect {
+            addressed: true,
+            deliver: None,
+            reply: Some(Some(0x0B)),
+        },
         // malformed flag combinations and other functions: only "a broadcast is never answered" is asserted
-        _ => Expect { addressed: true, deliver: None, reply: if broadcast { Some(None) } else { None } },
+        _ => Expect {
+            addressed: true,
+            deliver: None,
+            reply: if broadcast { Some(None) } else { None },
+        },
     }
 }
 
 fn exhaustive_table() -> (u64, Vec<J>, Option<(Fail, J)>) {
     let mut n = 0u64;
     let mut samples = vec![];
-    let dsts: Vec<u16> = vec![LOCAL, 11, 0xFFFC, 0xFFFD, 0xFFFE, 0xFFFF, 0xFFF0, 0xFFF1, 0xFFF2, 0xFFF3, 0xFFF4, 0xFFF5, 0xFFF6, 0xFFF7, 0xFFF8, 0xFFF9, 0xFFFA, 0xFFFB, 0];
+    let dsts: Vec<u16> = vec![
+        LOCAL, 11, 0xFFFC, 0xFFFD, 0xFFFE, 0xFFFF, 0xFFF0, 0xFFF1, 0xFFF2, 0xFFF3, 0xFFF4, 0xFFF5,
+        0xFFF6, 0xFFF7, 0xFFF8, 0xFFF9, 0xFFFA, 0xFFFB, 0,
+    ];
     let srcs: Vec<u16> = vec![1, 1024, 0xFFEF, LOCAL, 0xFFF0, 0xFFFC, 0xFFFF];
     for master_role in [false, true] {
         for self_en in [false, true] {
@@ -136,26 +183,47 @@ fn exhaustive_table() -> (u64, Vec<J>, Option<(Fail, J)>) {
                             let mut layer = Layer::new(
                                 modes,
                                 2048,
-                                if master_role { EndpointType::Master } else { EndpointType::Outstation },
-                                if self_en { Feature::Enabled } else { Feature::Disabled },
+                                if master_role {
+                                    EndpointType::Master
+                                } else {
+                                    EndpointType::Outstation
+                                },
+                                if self_en {
+                                    Feature::Enabled
+                                } else {
+                                    Feature::Disabled
+                                },
                                 EndpointAddress::raw(LOCAL),
                             );
                             let mut sec = Sec::NotReset;
                             // every address of the peer that is allowed to reset us does so first, when asked
                             if start_reset {
-                                let reset = rl::encode(if master_role { 0x40 } else { 0xC0 }, LOCAL, 1, &[]);
+                                let reset = rl::encode(
+                                    if master_role { 0x40 } else { 0xC0 },
+                                    LOCAL,
+                                    1,
+                                    &[],
+                                );
                                 let _ = feed(&mut layer, &reset);
                                 sec = Sec::Reset(true);
                             }
                             // the same frame twice: the second pass sees the FCB toggle / repeat
                             for pass in 0..2 {
                                 n += 1;
-                                let payload: Vec<u8> = if ctrl & 0x4F == 0x43 || ctrl & 0x4F == 0x44 { vec![0xC0, 0xC1, 0x17] } else { vec![] };
+                                let payload: Vec<u8> = if ctrl & 0x4F == 0x43 || ctrl & 0x4F == 0x44
+                                {
+                                    vec![0xC0, 0xC1, 0x17]
+                                } else {
+                                    vec![]
+                                };
                                 let frame = rl::encode(ctrl, *dst, *src, &payload);
                                 let e = expect(master_role, self_en, &mut sec, ctrl, *dst, *src);
                                 let seen = feed(&mut layer, &frame);
                                 let js = J::o(vec![
-                                    ("role", J::s(if master_role { "master" } else { "outstation" })),
+                                    (
+                                        "role",
+                                        J::s(if master_role { "master" } else { "outstation" }),
+                                    ),
                                     ("self_address", J::Bool(self_en)),
                                     ("after_reset", J::Bool(start_reset)),
                                     ("pass", J::U(pass)),
@@ -163,29 +231,43 @@ fn exhaustive_table() -> (u64, Vec<J>, Option<(Fail, J)>) {
                                     ("dst", J::U(*dst as u64)),
                                     ("src", J::U(*src as u64)),
                                 ]);
-                                if samples.len() < 2 && ctrl == 0xD3 && *dst == LOCAL && start_reset {
+                                if samples.len() < 2 && ctrl == 0xD3 && *dst == LOCAL && start_reset
+                                {
                                     samples.push(js.clone());
                                 }
                                 let own_dir = if master_role { 0x80u8 } else { 0x00 };
                                 let mut bad: Option<String> = None;
                                 if let Some(d) = e.deliver {
                                     if d != seen.delivered.is_some() {
-                                        bad = Some(format!("delivered={:?}, the statement says delivered={d}", seen.delivered));
+                                        bad = Some(format!(
+                                            "delivered={:?}, the statement says delivered={d}",
+                                            seen.delivered
+                                        ));
                                     }
                                 }
                                 if let (Some(true), Some((_, s, b))) = (e.deliver, seen.delivered) {
                                     if s != *src || b != (*dst >= 0xFFFD) {
-                                        bad = Some(format!("delivered with source {s} broadcast={b}"));
+                                        bad = Some(format!(
+                                            "delivered with source {s} broadcast={b}"
+                                        ));
                                     }
                                 }
                                 if let Some(r) = e.reply {
                                     let want = r.map(|f| (own_dir | f, *src, LOCAL));
                                     if want != seen.reply || seen.extra_writes > 0 {
-                                        bad = Some(format!("reply {:?} (+{} more writes), the statement says {:?}", seen.reply, seen.extra_writes, want));
+                                        bad = Some(format!(
+                                            "reply {:?} (+{} more writes), the statement says {:?}",
+                                            seen.reply, seen.extra_writes, want
+                                        ));
                                     }
                                 }
-                                if !e.addressed && (seen.delivered.is_some() || seen.reply.is_some()) {
-                                    bad = Some(format!("frame not addressed to this endpoint was acted on: {:?}", seen));
+                                if !e.addressed
+                                    && (seen.delivered.is_some() || seen.reply.is_some())
+                                {
+                                    bad = Some(format!(
+                                        "frame not addressed to this endpoint was acted on: {:?}",
+                                        seen
+                                    ));
                                 }
                                 if let Some(why) = bad {
                                     return (n, samples, Some((Fail::new("link-addressing", format!("ctrl={ctrl:#04x} dst={dst:#06x} src={src:#06x} role={} self_address={self_en} after_reset={start_reset} pass={pass}: {why}", if master_role { "master" } else { "outstation" })), js)));
@@ -230,7 +312,17 @@ impl Prop for Fcb {
     }
     fn run(case: &FcbCase) -> CaseOut {
         let mut out = CaseOut::default();
-        let mut layer = Layer::new(LinkModes::stream(LinkErrorMode::Close), 2048, if case.master_role { EndpointType::Master } else { EndpointType::Outstation }, Feature::Disabled, EndpointAddress::raw(LOCAL));
+        let mut layer = Layer::new(
+            LinkModes::stream(LinkErrorMode::Close),
+            2048,
+            if case.master_role {
+                EndpointType::Master
+            } else {
+                EndpointType::Outstation
+            },
+            Feature::Disabled,
+            EndpointAddress::raw(LOCAL),
+        );
         let dir: u8 = if case.master_role { 0x00 } else { 0x80 };
         let mut sec = Sec::NotReset;
         let mut last_fcb: Option<bool> = None;
@@ -238,10 +330,18 @@ impl Prop for Fcb {
             let fcbit = if *fcb { 0x20 } else { 0 };
             let (ctrl, dst, payload): (u8, u16, Vec<u8>) = match kind {
                 0 => (dir | 0x40, LOCAL, vec![]),
-                1 => (dir | 0x40 | 0x10 | fcbit | 0x03, LOCAL, vec![0xC0, 0xC0 | i as u8 & 0x0F, 0x17]),
+                1 => (
+                    dir | 0x40 | 0x10 | fcbit | 0x03,
+                    LOCAL,
+                    vec![0xC0, 0xC0 | i as u8 & 0x0F, 0x17],
+                ),
                 2 => (dir | 0x44, LOCAL, vec![0xC0, 0xC1, 0x17]),
                 3 => (dir | 0x49, LOCAL, vec![]),
-                _ => (dir | 0x40 | 0x10 | fcbit | 0x03, 0xFFFF, vec![0xC0, 0xC1, 0x18]),
+                _ => (
+                    dir | 0x40 | 0x10 | fcbit | 0x03,
+                    0xFFFF,
+                    vec![0xC0, 0xC1, 0x18],
+                ),
             };
             if case.master_role && *kind == 4 {
                 continue;
@@ -267,7 +367,13 @@ impl Prop for Fcb {
             if let Some(r) = e.reply {
                 let want = r.map(|f| (own_dir | f, 1u16, LOCAL));
                 if want != seen.reply {
-                    out.fail(Fail::new("fcb-reply", format!("frame #{i} kind {kind} fcb {fcb}: reply {:?}, expected {:?}", seen.reply, want)));
+                    out.fail(Fail::new(
+                        "fcb-reply",
+                        format!(
+                            "frame #{i} kind {kind} fcb {fcb}: reply {:?}, expected {:?}",
+                            seen.reply, want
+                        ),
+                    ));
                     return out;
                 }
             }
@@ -295,18 +401,52 @@ pub struct SessCase {
 fn fragment_of(kind: u8, seq: u8) -> (Vec<u8>, &'static str) {
     let seq = seq & 0x0F;
     match kind % 12 {
-        0 => (Fragment::request(seq, func::READ, ra::h_all(60, 1)).encode(), "valid READ"),
-        1 => (Fragment::request(seq, func::WRITE, ra::h_count8(50, 1, 1, &ra::u48(99))).encode(), "valid WRITE time"),
-        2 => (Fragment::request(seq, func::DIRECT_OPERATE, ra::h_prefixed8(12, 1, &[(1, ra::crob(3, 1, 1, 1, 0))])).encode(), "valid DIRECT_OPERATE"),
-        3 => (Fragment::request(seq, func::DIRECT_OPERATE_NR, ra::h_prefixed8(12, 1, &[(1, ra::crob(3, 1, 1, 1, 0))])).encode(), "valid DIRECT_OPERATE_NR"),
-        4 => (Fragment::request(seq, 25, vec![]).encode(), "unsupported function (OPEN_FILE)"),
+        0 => (
+            Fragment::request(seq, func::READ, ra::h_all(60, 1)).encode(),
+            "valid READ",
+        ),
+        1 => (
+            Fragment::request(seq, func::WRITE, ra::h_count8(50, 1, 1, &ra::u48(99))).encode(),
+            "valid WRITE time",
+        ),
+        2 => (
+            Fragment::request(
+                seq,
+                func::DIRECT_OPERATE,
+                ra::h_prefixed8(12, 1, &[(1, ra::crob(3, 1, 1, 1, 0))]),
+            )
+            .encode(),
+            "valid DIRECT_OPERATE",
+        ),
+        3 => (
+            Fragment::request(
+                seq,
+                func::DIRECT_OPERATE_NR,
+                ra::h_prefixed8(12, 1, &[(1, ra::crob(3, 1, 1, 1, 0))]),
+            )
+            .encode(),
+            "valid DIRECT_OPERATE_NR",
+        ),
+        4 => (
+            Fragment::request(seq, 25, vec![]).encode(),
+            "unsupported function (OPEN_FILE)",
+        ),
         5 => (vec![0x80 | seq, func::READ, 60, 1, 6], "FIR without FIN"),
         6 => (vec![0x40 | seq, func::READ, 60, 1, 6], "FIN without FIR"),
-        7 => (vec![0xD0 | seq, func::READ, 60, 1, 6], "UNS bit on a request"),
-        8 => (vec![0xC0 | seq, func::WRITE, 50, 1, 7, 1, 1, 2], "truncated objects"),
+        7 => (
+            vec![0xD0 | seq, func::READ, 60, 1, 6],
+            "UNS bit on a request",
+        ),
+        8 => (
+            vec![0xC0 | seq, func::WRITE, 50, 1, 7, 1, 1, 2],
+            "truncated objects",
+        ),
         9 => (vec![0xC0 | seq, 0x63], "unknown function code"),
         10 => (vec![0xC0 | seq], "one-octet fragment"),
-        _ => (Fragment::request(seq, func::COLD_RESTART, vec![]).encode(), "valid COLD_RESTART"),
+        _ => (
+            Fragment::request(seq, func::COLD_RESTART, vec![]).encode(),
+            "valid COLD_RESTART",
+        ),
     }
 }
 
@@ -326,7 +466,25 @@ impl Prop for Sess {
         }
     }
     fn strategy(_tier: Tier) -> BoxedStrategy<SessCase> {
-        (0u8..4, any::<bool>(), prop_oneof![3 => Just(true), 1 => Just(false)], 0u8..6, 0u8..12, 0u8..16).prop_map(|(state, any_master, broadcast_enabled, origin, kind, seq)| SessCase { state, any_master, broadcast_enabled, origin, kind, seq }).boxed()
+        (
+            0u8..4,
+            any::<bool>(),
+            prop_oneof![3 => Just(true), 1 => Just(false)],
+            0u8..6,
+            0u8..12,
+            0u8..16,
+        )
+            .prop_map(
+                |(state, any_master, broadcast_enabled, origin, kind, seq)| SessCase {
+                    state,
+                    any_master,
+                    broadcast_enabled,
+                    origin,
+                    kind,
+                    seq,
+                },
+            )
+            .boxed()
     }
     fn run(case: &SessCase) -> CaseOut {
         let rt = runtime();
@@ -347,14 +505,38 @@ async fn run_sess(case: &SessCase) -> CaseOut {
     let mut rig = OutRig::start(cfg, beh).await;
     rig.db(|db| {
         for i in 0..3 {
-            add_point(db, &PointSpec { ty: 0, index: i, class: 1, svar: 2, evar: 1 });
+            add_point(
+                db,
+                &PointSpec {
+                    ty: 0,
+                    index: i,
+                    class: 1,
+                    svar: 2,
+                    evar: 1,
+                },
+            );
         }
-        add_point(db, &PointSpec { ty: 2, index: 1, class: 0, svar: 2, evar: 1 });
+        add_point(
+            db,
+            &PointSpec {
+                ty: 2,
+                index: 1,
+                class: 0,
+                svar: 2,
+                evar: 1,
+            },
+        );
     });
     rig.settle().await;
     match case.state {
         1 => {
-            rig.db(|db| update_point(db, &unique_rec(0, 0, 1, 1, 0), UpdateOptions::detect_event()));
+            rig.db(|db| {
+                update_point(
+                    db,
+                    &unique_rec(0, 0, 1, 1, 0),
+                    UpdateOptions::detect_event(),
+                )
+            });
             rig.send(&read_classes(3, &[1]));
             rig.settle().await;
         }
@@ -362,7 +544,13 @@ async fn run_sess(case: &SessCase) -> CaseOut {
             confirm_null_unsol(&mut rig).await;
             rig.send(&enable_unsol(3, true, &[1, 2, 3]));
             rig.settle().await;
-            rig.db(|db| update_point(db, &unique_rec(0, 0, 1, 1, 0), UpdateOptions::detect_event()));
+            rig.db(|db| {
+                update_point(
+                    db,
+                    &unique_rec(0, 0, 1, 1, 0),
+                    UpdateOptions::detect_event(),
+                )
+            });
             rig.settle().await;
         }
         _ => {}
@@ -402,7 +590,14 @@ async fn run_sess(case: &SessCase) -> CaseOut {
     let executed: Vec<String> = log
         .iter()
         .filter_map(|(_, cb)| match cb {
-            Cb::WriteAbsoluteTime(_) | Cb::ColdRestart | Cb::WarmRestart | Cb::Freeze(_) | Cb::Select(..) | Cb::Operate(..) | Cb::ControlBegin | Cb::ClearRestartIin => Some(format!("{:?}", cb)),
+            Cb::WriteAbsoluteTime(_)
+            | Cb::ColdRestart
+            | Cb::WarmRestart
+            | Cb::Freeze(_)
+            | Cb::Select(..)
+            | Cb::Operate(..)
+            | Cb::ControlBegin
+            | Cb::ClearRestartIin => Some(format!("{:?}", cb)),
             _ => None,
         })
         .collect();
@@ -414,7 +609,13 @@ async fn run_sess(case: &SessCase) -> CaseOut {
             );
         }
         if foreign && !case.any_master && !executed.is_empty() {
-            out.fail(Fail::new("foreign-broadcast-executed", format!("broadcast {what} from foreign master {src} executed: {:?}", executed)));
+            out.fail(Fail::new(
+                "foreign-broadcast-executed",
+                format!(
+                    "broadcast {what} from foreign master {src} executed: {:?}",
+                    executed
+                ),
+            ));
         }
     } else if foreign && !case.any_master {
         if !app_frags.is_empty() {
@@ -424,16 +625,28 @@ async fn run_sess(case: &SessCase) -> CaseOut {
             );
         }
         if !executed.is_empty() {
-            out.fail(Fail::new("foreign-master-executed", format!("{what} from master address {src} executed: {:?}", executed)));
+            out.fail(Fail::new(
+                "foreign-master-executed",
+                format!("{what} from master address {src} executed: {:?}", executed),
+            ));
         }
     } else if foreign && case.any_master {
         for (d, _) in &app_frags {
             // solicited replies go back to the sender (an unsolicited response still goes to the configured master)
             if *d != src && *d != MASTER_ADDR {
-                out.fail(Fail::new("reply-to-wrong-address", format!("reply sent to {d}, request came from {src}")));
+                out.fail(Fail::new(
+                    "reply-to-wrong-address",
+                    format!("reply sent to {d}, request came from {src}"),
+                ));
             }
         }
-        if valid && case.state == 0 && case.kind % 12 != 3 && !app_frags.iter().any(|(d, b)| *d == src && b.len() >= 2 && b[1] == func::RESPONSE) {
+        if valid
+            && case.state == 0
+            && case.kind % 12 != 3
+            && !app_frags
+                .iter()
+                .any(|(d, b)| *d == src && b.len() >= 2 && b[1] == func::RESPONSE)
+        {
             out.fail(Fail::new("any-master-not-answered", format!("{what} from master {src} with any-master enabled was not answered to the sender: {:02x?}", app_frags)));
         }
     }
